@@ -1145,3 +1145,12 @@ def value_getattr(interp, st, ref, o, name):
         if name == "args":
             return o.args
     return NotImplemented
+
+
+def _xr_dataarray(interp, st, args, kwargs):
+    """xarray.DataArray(data=..., coords=..., dims=...): the values are `data` (coordinates are not modelled here;
+    the xarray plugin overrides this entry when it is loaded)"""
+    return kwargs["data"] if "data" in kwargs else args[0]
+
+
+REG["xarray.DataArray"] = TypeTag("xarray.DataArray", _xr_dataarray)
